@@ -429,6 +429,11 @@ impl PB<'_> {
     }
 
     fn varargs(&mut self, kind: Kind, d: u32, min: usize, max: usize) -> Vec<u32> {
+        // rarely a long argument list (all leaves), otherwise min..=max
+        if max >= 3 && self.rng.chance(1, 300) {
+            let n = 20 + self.rng.usize(400);
+            return (0..n).map(|_| self.leaf(kind)).collect();
+        }
         let n = min + self.rng.usize(max - min + 1);
         (0..n).map(|_| self.expr(kind, d)).collect()
     }
